@@ -1,12 +1,16 @@
 #!/usr/bin/env python3
-"""tools/redetect_all.py [K]  : re-run the current machinery against every seeded change (K parallel copies of
+"""tools/redetect_all.py [K [tag-regex]]  : re-run the current machinery against every seeded change (K parallel copies of
 /verif under /var/tmp, each with its own fact cache), then update `checks_that_report_it`, `detected`,
 `detected_by_own_property` in every seeded/<tag>/meta.json and regenerate seeded/README.md.
 `first_round_checks_that_reported_it` is never touched."""
 import json, os, shutil, subprocess, sys, glob
 V = os.path.dirname(os.path.dirname(os.path.abspath(__file__)))
+import re
 K = int(sys.argv[1]) if len(sys.argv) > 1 else 6
+FILT = re.compile(sys.argv[2]) if len(sys.argv) > 2 else None
 tags = sorted(os.path.basename(os.path.dirname(m)) for m in glob.glob(os.path.join(V, "seeded", "*", "meta.json")))
+if FILT:
+    tags = [t for t in tags if FILT.search(t)]
 procs = []
 for k in range(K):
     root = "/var/tmp/verif_copy%d" % k
